@@ -477,6 +477,12 @@ def case_settings(case, col=None):
                 raise Violation(f"default_format_not_honoured:{name}", f"after default_format={d!r}: str(held {name})={a!r}, format(held,'')={b!r}, str(fresh)={c!r}")
         if format(U, "") != format(U, d):
             raise Violation("default_format_not_equal_explicit_spec", f"default_format={d!r}: {format(U, '')!r} vs {format(U, d)!r}")
+        # the same for quantities, incl. the compact modifier '#' and magnitude specs: an empty spec means exactly the default format
+        s1, t1 = attempt(format, q, "")
+        s2, t2 = attempt(format, q, d)
+        if s1 != s2 or (s1 == "ok" and t1 != t2):
+            raise Violation("default_format_not_equal_explicit_spec:Quantity" + (":compact" if "#" in d else ""),
+                            f"default_format={d!r}: format(q,'') -> {t1!r}, format(q,{d!r}) -> {t2!r} for {case['m']} {units}")
     ureg.formatter.default_format = ""
     # sort functions only permute the factors
     base = sorted(structural(format(U, "D"), "D", set()))
@@ -491,7 +497,8 @@ def case_settings(case, col=None):
 def run_settings(task, tier, seed, col):
     names = ["meter", "second", "kilogram", "kelvin", "newton", "ampere", "mole"]
     strat = st.builds(lambda u, d, m: {"units": u, "defaults": d, "m": m}, st.dictionaries(st.sampled_from(names), st.integers(-3, 3).filter(bool), min_size=1, max_size=3),
-                      st.lists(st.sampled_from(["", "~", "P", "~P", "C", "~C", "H", "L", "~L", ".3f", ".2f~P", "Lx"]), min_size=1, max_size=4), st.sampled_from([1, 2.5, 1234.5]))
+                      st.lists(st.sampled_from(["", "~", "P", "~P", "C", "~C", "H", "L", "~L", ".3f", ".2f~P", "Lx", "#~P", "#.2f~C", "#~", "#P"]), min_size=1, max_size=4),
+                      st.sampled_from([1, 2.5, 1234.5, 1.5e6, 0.002]))
     hyp_search(col, strat, lambda c: case_settings(c, col), max_examples=150 if tier == "quick" else 2500, seed=seed * 163)
 
 
